@@ -23,14 +23,18 @@ Prog1 == << [k |-> "set", which |-> "clm", v |-> Val("int", "cbc", WOf(1), 0), m
             [k |-> "set", which |-> "hdr", v |-> Val("str", "cbh", "v", 0), map |-> 0] >>
 Prog2 == << [k |-> "del", which |-> "clm", v |-> Val("int", NONE, W0, 0), map |-> 0],
             [k |-> "set", which |-> "hdr", v |-> Val("str", "typ", "cb", 1), map |-> 0] >>
-Core == { BM("set", "hdr", Val("str", "typ", "x", 0)), BM("set", "hdr", Val("str", "alg", "none", 1)),
+\* JSON reals that need all 17 significant digits (written by the driver with %.17g on both sides)
+RealsText == "{\"q\":1726000000.1234567,\"r\":0.30000000000000004}"
+RealsM == << <<"q", "real", "1726000000.1234567", W0>>, <<"r", "real", "0.30000000000000004", W0>> >>
+Reals(w) == BM("set", w, [t |-> "json", name |-> NONE, val |-> RealsText, replace |-> 1, jcls |-> "obj", jm |-> RealsM, jcanon |-> RealsText])
+Core == { Reals("clm"), BM("set", "hdr", Val("str", "typ", "x", 0)), BM("set", "hdr", Val("str", "alg", "none", 1)),
           BM("set", "hdr", Val("int", "typ", WOf(7), 1)), BM("set", "hdr", Val("bool", "alg", 1, 1)),
           BM("set", "clm", Val("int", "iat", WOf(5), 1)), BM("set", "clm", Val("int", "exp", WOf(7), 0)),
           BM("set", "clm", Val("str", "sub", "s", 0)), BM("del", "clm", Val("int", "sub", W0, 0)),
           Iat(0), Iat(1), Iat(4), Iat(-1), Off("exp", 3600), OffW("exp", Century), OffW("nbf", WBig(1024, 5)), Off("exp", 0), Off("nbf", 60), Off("nbf", -5),
           BSetKeyOp("HS256", 0), BSetKeyOp("none", 1), BSetKeyOp("none", -1),
           BSetCbOp(Prog1), ClockOp(WAdd(T0, WOf(1000))) }
-Extra == { BM("set", "hdr", Val("str", "kid", "k", 0)), BM("del", "hdr", Val("int", "typ", W0, 0)), BM("del", "hdr", Val("int", NONE, W0, 0)),
+Extra == { Reals("hdr"), BM("set", "hdr", Val("str", "kid", "k", 0)), BM("del", "hdr", Val("int", "typ", W0, 0)), BM("del", "hdr", Val("int", NONE, W0, 0)),
            BM("set", "clm", Val("str", "nbf", "text", 0)), BM("set", "clm", Val("bool", "admin", 1, 0)),
            Off("exp", 1), Off("exp", -5), OffW("exp", W2p31), OffW("nbf", Century), OffW("iat", WBig(1024, 5)), Off("nbf", 0), Off("iat", 10),
            BSetKeyOp("RS256", 2), BSetKeyOp("ES256", 3), BSetKeyOp("HS256", 1),
